@@ -24,7 +24,7 @@ def build(tier):
         n = iters[(si, lat)] + 6
         first = 36 if (q and si == 5) else 0  # quick: the login prefix is the same in every script
         for ci, cut in enumerate(L.CUTS):
-            for pool in ((True,) if (q or lat) else (False, True)):
+            for pool in ((True,) if (q or lat or si != 1) else (False, True)):
                 lo = first
                 while lo <= n:
                     hi = min(lo + chunk - 1, n)
@@ -43,7 +43,7 @@ def build(tier):
         bounds={
             "scripts": f"real aioftp.Client sessions over SimNet, (script, backend latency in virtual ms per backend call): {[(L.SCRIPTS[si].__name__, lat) for si, lat in combos]} (listing, upload, download, directory operations, stat + append at an offset + PASV/EPSV, restarted upload + restarted download)",
             "cut": f"at event-loop iteration k after the client started, k symbolic over the whole run of each script (measured on the current tree: {dict(((L.SCRIPTS[si].__name__, lat), n + 6) for (si, lat), n in iters.items())} iterations): "
-                   "every client transport vanishes, or Server.close() is called, or only the control connection is reset while a command is still unread (ctrl_reset); with and without a restricted data-port pool" + (" (quick: with pool)" if q else ""),
+                   "every client transport vanishes, or Server.close() is called, or only the control connection is reset while a command is still unread (ctrl_reset); with a restricted data-port pool" + ("" if q else "; the upload script also without"),
         },
         outside=["two or more sessions cut at the same instant", "TLS shutdown", "real file descriptors (the ledger is the simulated network's and the spy backend's)", "cut points inside a single callback (atomic in asyncio)"],
         explanation=(
